@@ -32,9 +32,3 @@ Definition inv32 (x : N) : N := N.lxor x mask32.
 
 (* crc32.Update(crc, castagnoliTable, p) *)
 Definition crc_update (crc : N) (p : bytes) : N := inv32 (crc_raw (inv32 crc) p).
-
-(* etcd pkg/crc: digest{crc, tab}; New(prev, tab) starts at prev; Write(p) sets
-   crc = crc32.Update(crc, tab, p); Sum32 returns crc.  The digest state is just the N. *)
-Definition digest_new (prev : N) : N := prev.
-Definition digest_write (d : N) (p : bytes) : N := crc_update d p.
-Definition digest_sum32 (d : N) : N := d.
